@@ -202,14 +202,16 @@ def reader_records(rng, n, repeats=False):
     for k in range(n):
         ncon = rng.choice([1, 2])
         cons = {}
+        # identifiers of contests, ballots and candidates are small numbers in real files and may coincide
+        small_ids = k % 3 == 0
         for ci in range(ncon):
-            cid = str(331 + ci)
+            cid = str(1 + ci) if small_ids else str(331 + ci)
             nc = rng.randint(2, 4)
-            cons[cid] = [str(10 * (ci + 1) + j) for j in range(nc)]
+            cons[cid] = [str(1 + j) for j in range(nc)] if small_ids else [str(10 * (ci + 1) + j) for j in range(nc)]
         rows = []
         nb = rng.randint(1, 6)
         for bi in range(nb):
-            bid = f"99{bi}"
+            bid = str(2 + bi) if small_ids else f"99{bi}"
             for cid, cands in cons.items():
                 if ncon == 1 or rng.random() < 0.7:
                     L = rng.randint(0, len(cands))          # a row may rank nobody
